@@ -6,6 +6,7 @@ from vlib.core import Case
 
 ID = "C07"
 LEAN_TARGETS = ["ZmqVerif.Props.C07"]
+ESCALATE_ROUNDS = 2  # extra seeded rounds of the random families when /repo differs from the validated baseline
 RULE = (
     "real REQ and REP sockets with scripted raw peers. EXHAUSTIVE: payload shapes of 1..3 frames (quick) / 1..4 "
     "(thorough) x frame sizes {0, 5, 256, 70000}; for REQ the request's wire bytes and the result of recv on four "
